@@ -73,6 +73,12 @@ def compare(ctx, dialect, s):
     ctx.count('anno', lib.stable_hash([dialect, got[0], sorted(got[1]) if got[0] == 'ok' else got[1], s.count(';'), s.count('=')]),
               nontrivial=bool(s), sample=[dialect, s])
     ctx.feature(f'anno:{got[0] if got[0] == "ok" else got[1]}')
+    if dialect == 'base' and s and got[0] == 'ok':
+        # the documented meaning of the plain forms: reserved keys q / w (exactly these spellings), everything else verbatim
+        parts = s.split(';')
+        exp = expected_base(parts[0], parts[1:]) if parts[0].isalnum() else None
+        if exp is not None and dict(got[1]) != exp:
+            ctx.fail({'kind': 'anno-base', 's': s}, f'[#{s}] gives {dict(got[1])}, documented {exp}')
     if ctx.oracle_only:
         return got
     rep = ctx.model({'op': 'anno', 'dialect': dialect, 's': s})
